@@ -322,8 +322,11 @@ def lean_request(case):
 
     groups = []
     for g, ms in effective_groups(case):
-        groups.append([g, [[m["name"], final_enabled(case, g, i, m), canon_kwargs(m["args"])] for i, m in enumerate(ms or [])]])
-    return {"groups": groups, "steps": case["steps"], "debug": case["debug"]}
+        groups.append([g, [[m["name"], m["enabled"], canon_kwargs(m["args"])] for i, m in enumerate(ms or [])]])
+    # changes made after construction are applied BY THE MODEL (setIdx / setKey of Model/C01Keys.lean: by position
+    # for the attribute route, first model of that name in that group for the dotted-key route)
+    toggles = [[g, i, name, bool(new), route] for g, i, name, new, route in case.get("toggles", [])]
+    return {"groups": groups, "toggles": toggles, "steps": case["steps"], "debug": case["debug"]}
 
 
 def property_predicate(case, impl):
@@ -378,7 +381,7 @@ def body(ck: common.Check):
     import extract
 
     extract.generate("C01")
-    ck.obligations(["PyxelModel.Props.C01"], ["PyxelModel.Drive.C01"])
+    ck.obligations(["PyxelModel.Props.C01", "PyxelModel.Props.C01Keys"], ["PyxelModel.Drive.C01"])
     rng = ck.rng
     n_random = 150 if ck.tier == "quick" else 2500
     cases = []
